@@ -39,6 +39,23 @@ def _seeds_for(prop):
     return out
 
 
+def _refactors_for(prop):
+    """committed behaviour-preserving refactors of this property's anchored code that are expected to stay quiet"""
+    out = []
+    for d in sorted(glob.glob(os.path.join(VERIF, 'refactors', '*'))):
+        meta = os.path.join(d, 'meta.json')
+        patch = os.path.join(d, 'patch.diff')
+        if not (os.path.exists(meta) and os.path.exists(patch)):
+            continue
+        try:
+            m = json.load(open(meta))
+        except ValueError:
+            continue
+        if m.get('property') == prop and m.get('expected') == 'quiet':
+            out.append((os.path.basename(d), patch, m))
+    return out
+
+
 def _copy_tree(dst):
     shutil.copytree(os.path.join(loader.REPO, 'src'), os.path.join(dst, 'src'),
                     ignore=shutil.ignore_patterns('__pycache__', '*.so', '*.pyc', '*.o', 'build', '*.egg-info'))
@@ -75,7 +92,9 @@ def run(prop):
     root = tempfile.mkdtemp(prefix=f'tdstatic-selftest-{prop}-')
     results = []
     try:
-        jobs = [('unmodified-copy', None)] + [(n, p) for n, p, _ in seeds]
+        refs = _refactors_for(prop)
+        quiet_names = {n for n, _, _ in refs}
+        jobs = [('unmodified-copy', None)] + [(n, p) for n, p, _ in seeds] + [(n, p) for n, p, _ in refs]
         with concurrent.futures.ThreadPoolExecutor(max_workers=min(16, len(jobs))) as ex:
             futs = [ex.submit(_one, prop, n, p, root) for n, p in jobs]
             for f in futs:
@@ -84,9 +103,9 @@ def run(prop):
         shutil.rmtree(root, ignore_errors=True)
     bad = []
     for name, verdict, detail in results:
-        want = 'passed' if name == 'unmodified-copy' else 'violation'
+        want = 'passed' if (name == 'unmodified-copy' or name in quiet_names) else 'violation'
         ok = verdict == want or verdict == 'skipped'
-        print(f'  SELFTEST {name}: {verdict}' + ('' if ok else f' (expected {want})') + (f' - {detail[:200]}' if name != 'unmodified-copy' else ''))
+        print(f'  SELFTEST {name}: {verdict}' + ('' if ok else f' (expected {want})') + (f' - {detail[:200]}' if want == 'violation' or not ok else ''))
         if not ok:
             bad.append(f'{name}: {verdict}, expected {want}')
     # add to the evidence written by the rule run
@@ -94,9 +113,10 @@ def run(prop):
     try:
         ev = json.load(open(ev_path))
         ev['coverage']['selftest'] = {
-            'method': 'seeded property-breaking edits applied to scratch copies of the current source; analyser must report each; unmodified copy must pass',
+            'method': 'seeded property-breaking edits applied to scratch copies of the current source: the analyser must report each; behaviour-preserving refactors of the same code (refactors/): the analyser must stay quiet; unmodified copy must pass',
             'variants': [{'name': n, 'verdict': v, 'detail': d} for n, v, d in results],
             'detected': sum(1 for n, v, d in results if v == 'violation'),
+            'refactors_quiet': sum(1 for n, v, d in results if n in quiet_names and v == 'passed'),
             'skipped': sum(1 for n, v, d in results if v == 'skipped'),
             'missed': bad,
         }
